@@ -66,3 +66,8 @@ PROPS["C12"] = dict(pkg="c12", shards=16, level="exploration",
     technique="stateful property-based testing (rapid state machine over one schema instance); oracle = 12x repeated evaluation (map-order randomisation), deep-copy argument snapshots, self-description / GetDefaults snapshots and differential against a freshly built instance",
     level_text="Exploration: generated call histories (Unserialize / Validate / Serialize / ValidateCompatibility with valid, hostile and default-filling arguments, in-place scrambling of returned values) on one schema instance; every call evaluated 12 times, arguments compared with deep copies, and after every step the instance compared with its own initial self-description and defaults and with a fresh instance on a probe set.",
     level_note="Only error-ness and values are compared, never messages (messages list map keys in iteration order by design); totality of the calls is C04/C15's concern (panics are compared for consistency, not reported); recursive scopes are excluded from the schema-mode compatibility action (recorded C15 finding).")
+
+PROPS["C14"] = dict(pkg="c14", shards=16, level="exploration",
+    technique="property-based testing (rapid) over generated scope trees with colliding IDs and namespaces; oracles = link-state model per ApplyNamespace step, reference interpreter with lexical resolution, and the metamorphic relation 'inlining references does not change behaviour'",
+    level_text="Exploration: generated worlds (nested scopes with colliding object IDs of different shapes, references under properties/lists/maps/one-of, up to two external namespaces applied in a generated order, recursive objects) with valid, mutated and deeply recursive inputs; link state checked after every namespace application, behaviour compared with the lexical reference resolver and with the reference-free (inlined) schema.",
+    level_note="Objects are map-based; every object carries a uniquely named required marker so that a mis-resolved reference changes acceptance; recursion is unrolled 3 levels for the inlined form; external scopes have no named references of their own.")
